@@ -34,8 +34,40 @@ Proof.
   destruct (x_known e); cbn [negb orb]; auto. rewrite (Hk eq_refl), N.eqb_refl. auto.
 Qed.
 
+(* what is kept of the inode partition in every mode: two non-directories that share an inode
+   carry the same key (a copy is never linked to a file of another group or to a foreign file) *)
+Definition keys_sound (V : view) (X : xview) : Prop :=
+  forall p q i d1 d2 e1 e2, V p = Some (i, d1) -> V q = Some (i, d2) -> X p = Some e1 -> X q = Some e2 ->
+    is_dir d1 = false -> ikey_eqb (x_key e1) (x_key e2) = true.
+
+Lemma match_of_inv o fs X : Inv o fs X -> strict fs X -> forall p, match_at (view_of_fs fs) X p = true.
+Proof.
+  intros I S p. unfold match_at, view_of_fs. destruct (names fs p) as [i|] eqn:E.
+  - destruct (i_some _ _ _ I _ _ E) as (e & E1 & E2 & _). rewrite E1. eapply dent_match_of_dm; eauto.
+  - rewrite (i_none _ _ _ I _ E). auto.
+Qed.
+
+Lemma keys_sound_of_inv o ms multi sdof SS fs X im :
+  Inv o fs X -> Lk o ms multi sdof SS fs X im -> keys_sound (view_of_fs fs) X.
+Proof.
+  intros I L p q i d1 d2 e1 e2 Hp Hq H1 H2 Hd. unfold view_of_fs in Hp, Hq.
+  destruct (names fs p) as [i1|] eqn:Ep; [|discriminate]. destruct (names fs q) as [i2|] eqn:Eq; [|discriminate].
+  inversion Hp; subst. inversion Hq; subst.
+  destruct (i_some _ _ _ I _ _ Ep) as (e1' & A1 & _ & A3). rewrite H1 in A1. inversion A1; subst e1'.
+  destruct (i_some _ _ _ I _ _ Eq) as (e2' & B1 & _ & B3). rewrite H2 in B1. inversion B1; subst e2'.
+  destruct (x_key e1) as [a|p1|s1] eqn:K1; simpl in A3.
+  - subst a. destruct (x_key e2) as [b|q1|s2] eqn:K2; simpl in B3; simpl.
+    + subst. apply N.eqb_refl.
+    + destruct B3 as [-> B3]. apply B3 in Ep. subst. congruence.
+    + destruct (lk_grp _ _ _ _ _ _ _ _ L _ _ _ H2 K2) as (_ & _ & _ & _ & G5).
+      destruct (G5 _ _ Eq Ep) as (e' & C1 & C2). rewrite H1 in C1. inversion C1; subst. congruence.
+  - destruct A3 as [-> A3]. apply A3 in Eq. subst q. rewrite H1 in H2. inversion H2; subst. rewrite K1. simpl. apply path_eqb_refl.
+  - destruct (lk_grp _ _ _ _ _ _ _ _ L _ _ _ H1 K1) as (_ & _ & _ & _ & G5).
+    destruct (G5 _ _ Ep Eq) as (e' & C1 & C2). rewrite H2 in C1. inversion C1; subst. rewrite C2. simpl. apply N.eqb_refl.
+Qed.
+
 Lemma view_matches_of_inv o ms multi sdof fs X im :
-  Inv o fs X -> Lk o ms multi sdof fs X im -> strict fs X -> view_matches (view_of_fs fs) X.
+  Inv o fs X -> Lk o ms multi sdof True fs X im -> strict fs X -> view_matches (view_of_fs fs) X.
 Proof.
   intros I L S. split.
   - intro p. unfold match_at, view_of_fs. destruct (names fs p) as [i|] eqn:E.
@@ -51,8 +83,8 @@ Proof.
       apply B3 in Ep. subst. congruence.
     + (* KDst / KSrc *)
       subst a. destruct (N.eqb i j) eqn:E; auto. apply N.eqb_eq in E. subst j.
-      destruct (lk_src _ _ _ _ _ _ _ L _ _ _ B1 K2) as (l & i' & R1 & R2). rewrite Eq in R2. inversion R2; subst i'.
-      destruct (lk_mem _ _ _ _ _ _ _ L _ _ _ _ R1 Ep) as (e0 & C1 & C2 & _). rewrite A1 in C1. inversion C1; subst. congruence.
+      destruct (lk_src _ _ _ _ _ _ _ _ L Logic.I _ _ _ B1 K2) as (l & i' & R1 & R2). rewrite Eq in R2. inversion R2; subst i'.
+      destruct (lk_mem _ _ _ _ _ _ _ _ L _ _ _ _ R1 Ep) as (e0 & C1 & C2 & _). rewrite A1 in C1. inversion C1; subst. congruence.
     + subst. destruct A3 as [-> A3]. destruct (N.eqb i j) eqn:E; auto. apply N.eqb_eq in E. subst j.
       apply A3 in Eq. subst. congruence.
     + destruct A3 as [-> A3], B3 as [-> B3]. destruct (N.eqb i j) eqn:E.
@@ -63,17 +95,17 @@ Proof.
       apply A3 in Eq. subst. congruence.
     + (* KSrc / KDst *)
       subst b. destruct (N.eqb i j) eqn:E; auto. apply N.eqb_eq in E. subst j.
-      destruct (lk_src _ _ _ _ _ _ _ L _ _ _ A1 K1) as (l & i' & R1 & R2). rewrite Ep in R2. inversion R2; subst i'.
-      destruct (lk_mem _ _ _ _ _ _ _ L _ _ _ _ R1 Eq) as (e0 & C1 & C2 & _). rewrite B1 in C1. inversion C1; subst. congruence.
+      destruct (lk_src _ _ _ _ _ _ _ _ L Logic.I _ _ _ A1 K1) as (l & i' & R1 & R2). rewrite Ep in R2. inversion R2; subst i'.
+      destruct (lk_mem _ _ _ _ _ _ _ _ L _ _ _ _ R1 Eq) as (e0 & C1 & C2 & _). rewrite B1 in C1. inversion C1; subst. congruence.
     + destruct B3 as [-> B3]. destruct (N.eqb i j) eqn:E; auto. apply N.eqb_eq in E. subst j.
       apply B3 in Ep. subst. congruence.
     + (* KSrc / KSrc *)
-      destruct (lk_src _ _ _ _ _ _ _ L _ _ _ A1 K1) as (l1 & i1 & R1 & R2). rewrite Ep in R2. inversion R2; subst i1.
-      destruct (lk_src _ _ _ _ _ _ _ L _ _ _ B1 K2) as (l2 & i2 & R3 & R4). rewrite Eq in R4. inversion R4; subst i2.
+      destruct (lk_src _ _ _ _ _ _ _ _ L Logic.I _ _ _ A1 K1) as (l1 & i1 & R1 & R2). rewrite Ep in R2. inversion R2; subst i1.
+      destruct (lk_src _ _ _ _ _ _ _ _ L Logic.I _ _ _ B1 K2) as (l2 & i2 & R3 & R4). rewrite Eq in R4. inversion R4; subst i2.
       destruct (N.eqb s1 s2) eqn:Es.
       * apply N.eqb_eq in Es. subst s2. rewrite R1 in R3. inversion R3; subst. rewrite N.eqb_refl. auto.
       * destruct (N.eqb i j) eqn:E; auto. apply N.eqb_eq in E. subst j.
-        destruct (lk_mem _ _ _ _ _ _ _ L _ _ _ _ R3 Ep) as (e0 & C1 & C2 & _). rewrite A1 in C1. inversion C1; subst.
+        destruct (lk_mem _ _ _ _ _ _ _ _ L _ _ _ _ R3 Ep) as (e0 & C1 & C2 & _). rewrite A1 in C1. inversion C1; subst.
         rewrite K1 in C2. inversion C2; subst. rewrite N.eqb_refl in Es. discriminate.
 Qed.
 
@@ -131,8 +163,28 @@ Section Thm.
   Lemma sel_all_true : forall p, sel_all p = true. Proof. reflexivity. Qed.
 
   Lemma top fs src dst : wf_fs fs ->
-    exists sdof, top_ok o sroot sdof (overlay_all o sroot (view_of_fs fs) src dst) (copy_top o sel_all sroot fs src dst).
+    exists sdof, top_ok o sroot sdof True (overlay_all o sroot (view_of_fs fs) src dst) (copy_top o sel_all sroot fs src dst).
   Proof. destruct Hsrc. destruct Hlc as (sdof & Hc). exists sdof. apply copy_top_ok; auto. Qed.
+
+  (* every source, wildcards together with link groups included (no exact partition) *)
+  Lemma topg fs src dst : wf_fs fs ->
+    exists sdof, top_ok o sroot sdof False (overlay_all o sroot (view_of_fs fs) src dst) (copy_top o sel_all sroot fs src dst).
+  Proof. clear Hmode. destruct Hsrc. destruct Hlc as (sdof & Hc). exists sdof. apply copy_top_ok; auto; intros []. Qed.
+
+  (* C15, all sources: dentry by dentry the result is the overlay, and no two names share an
+     inode unless the specification puts them into one group *)
+  Theorem copy_overlay_links_proof fs src dst r :
+    wf_fs fs -> overlay_all o sroot (view_of_fs fs) src dst = inl r ->
+    exists st', copy_top o sel_all sroot fs src dst = (st', None) /\
+                (forall p, match_at (view_of_fs (c_fs st')) (xr_view r) p = true) /\
+                keys_sound (view_of_fs (c_fs st')) (xr_view r) /\
+                rev (c_notifs st') = xr_notifs r.
+  Proof.
+    intros Hfs E. destruct (topg fs src dst Hfs) as (sdof & H). rewrite E in H.
+    destruct H as (st' & H1 & H2 & H3 & H4 & _ & _ & _ & H9). exists st'. split; auto. split; [|split; auto].
+    - apply (match_of_inv o); auto.
+    - eapply keys_sound_of_inv; eauto.
+  Qed.
 
   (* C15: the result of a successful Copy is the overlay of the source(s) over the destination *)
   Theorem copy_overlay_partial_proof fs src dst r :
@@ -142,7 +194,7 @@ Section Thm.
                 rev (c_notifs st') = xr_notifs r.
   Proof.
     intros Hfs E. destruct (top fs src dst Hfs) as (sdof & H). rewrite E in H.
-    destruct H as (st' & H1 & H2 & H3 & H4 & _ & _ & _ & _ & H9). exists st'. split; auto. split; auto.
+    destruct H as (st' & H1 & H2 & H3 & H4 & _ & _ & _ & H9). exists st'. split; auto. split; auto.
     eapply view_matches_of_inv; eauto.
   Qed.
 
@@ -151,7 +203,7 @@ Section Thm.
     wf_fs fs -> overlay_all o sroot (view_of_fs fs) src dst = inr xe ->
     exists st' e, copy_top o sel_all sroot fs src dst = (st', Some e) /\ err_cls e = xerr_cls xe.
   Proof.
-    intros Hfs E. destruct (top fs src dst Hfs) as (sdof & H). rewrite E in H.
+    intros Hfs E. destruct (topg fs src dst Hfs) as (sdof & H). rewrite E in H.
     destruct H as (st' & e & H1 & H2 & _). eauto.
   Qed.
 
@@ -219,9 +271,9 @@ Section Thm.
       names (c_fs st') p = Some i /\ dent_match (inodes (c_fs st') i) be = true /\
       (forall j, x_key be = KDst j -> i = j).
   Proof.
-    intros Hfs E. destruct (top fs src dst Hfs) as (sdof & H). rewrite E in H.
+    intros Hfs E. destruct (topg fs src dst Hfs) as (sdof & H). rewrite E in H.
     destruct (overlay_all_conflict _ _ _ _ _ _ E) as (Hr & be & Hb & Hcls). split; auto.
-    destruct H as (st' & e & H1 & H2 & _ & (X' & I' & S' & HX & _)).
+    destruct H as (st' & e & H1 & H2 & (X' & I' & S' & HX & _)).
     rewrite Hb in HX. destruct (inv_x_some _ _ _ _ _ I' HX) as (i & Hi & Hm & Hk).
     exists st', e, be, i. repeat split; auto.
     - eapply dent_match_of_dm; eauto.
@@ -254,15 +306,14 @@ Section Wf.
   Variable sroot : snode.
   Hypothesis Hsrc : wf_src sroot.
   Hypothesis Hlc : links_consistent sroot.
-  Hypothesis Hmode : no_link_groups sroot \/ o_wild o = false.
 
   (* a successful Copy leaves a well-formed file system (so it can be copied onto again) *)
   Theorem copy_preserves_wf_proof fs src dst st' :
     wf_fs fs -> copy_top o sel_all sroot fs src dst = (st', None) -> wf_fs (c_fs st').
   Proof.
-    intros Hfs E. destruct (top o sroot Hsrc Hlc Hmode fs src dst Hfs) as (sdof & H).
+    intros Hfs E. destruct (topg o sroot Hsrc Hlc fs src dst Hfs) as (sdof & H).
     destruct (overlay_all o sroot (view_of_fs fs) src dst) as [r|xe].
-    - destruct H as (st'' & E1 & I & _ & _ & _ & _ & _ & Hroot & _). rewrite E in E1. inversion E1; subst st''.
+    - destruct H as (st'' & E1 & I & _ & _ & _ & _ & Hroot & _). rewrite E in E1. inversion E1; subst st''.
       split; [apply (i_lt _ _ _ I)|]. split; [apply (i_par _ _ _ I)|]. split; [apply (i_diru _ _ _ I)|].
       eapply inv_x_isdir; eauto.
     - destruct H as (st'' & e & E1 & _). rewrite E in E1. discriminate.
